@@ -1,3 +1,4 @@
+import Secp.Proofs.DriversNonce
 import Secp.Proofs.Nonce
 /-
   Props/C10 — nonce generation follows RFC 6979 with the documented extensions.
@@ -52,5 +53,26 @@ theorem schnorr_tag_distinct (priv hash : Bytes) :
     calls is checked by the correspondence run, which issues calls in shuffled orders -/
 theorem nonce_pure (fuel : Nat) (priv hash extra version : Bytes) (i : Nat) :
     nonceM fuel priv hash extra version i = nonceM fuel priv hash extra version i := rfl
+
+/-! ### Regenerated drivers (tools/gotr pass T8)
+
+`Secp.Gen.Drivers` is REGENERATED from /repo on every check run: the Go functions below translated
+statement by statement into Lean terms over the value-level primitives.  The theorems say the
+regenerated definitions EQUAL the hand-written models the theorems above are about, so a change to
+one of these functions either leaves the equality provable (then the property theorems still speak
+about the code) or breaks this file.  `DR` = ok | err | panic | fuel (retry loop out of fuel) |
+undef (an arithmetic assumption of the translation failed; shown never to occur). -/
+
+/-- `NonceRFC6979` (nonce.go) regenerated — key-buffer assembly with Go `copy` semantics, the HMAC prelude and the
+    generation loop — equals `nonceM` for ALL byte strings of any lengths -/
+theorem nonceRFC6979_regenerated (privKey hash extra version : Bytes) (extraIterations : Nat) :
+    Secp.Gen.Drivers.nonceRFC6979 privKey hash extra version extraIterations =
+      (match nonceM 256 privKey hash extra version extraIterations with | some x => DR.ok x | none => DR.fuel) :=
+  Secp.Proofs.DriversNonce.nonceRFC6979_regenerated privKey hash extra version extraIterations
+
+/-- the translation's guard on Go `int` subtractions never fires -/
+theorem nonceRFC6979_ne_undef (privKey hash extra version : Bytes) (extraIterations : Nat) :
+    Secp.Gen.Drivers.nonceRFC6979 privKey hash extra version extraIterations ≠ DR.undef :=
+  Secp.Proofs.DriversNonce.nonceRFC6979_ne_undef privKey hash extra version extraIterations
 
 end Secp.Props.C10
